@@ -87,7 +87,7 @@ ASSUMPTIONS = [
     'the index record fits in one record (50+nx*ny >= 158+LENH) and nx, ny '
     '>= 3 (implicit preconditions of the reader)',
 ]
-BUDGET = {'quick': dict(examples=6400, max_s=240),
+BUDGET = {'quick': dict(examples=9600, max_s=240),
           'thorough': dict(examples=300000, max_s=3000)}
 
 ULP = 2.0 ** -24
